@@ -267,10 +267,17 @@ def audit_axioms(pid, names):
 
 
 def load_known():
+    """known_findings.json (authoritative) plus per-property proposals in known_findings.d/."""
+    out = []
     p = os.path.join(VERIF, "known_findings.json")
-    if not os.path.exists(p):
-        return []
-    return json.load(open(p)).get("findings", [])
+    if os.path.exists(p):
+        out += json.load(open(p)).get("findings", [])
+    d = os.path.join(VERIF, "known_findings.d")
+    if os.path.isdir(d):
+        for fn in sorted(os.listdir(d)):
+            if fn.endswith(".json"):
+                out += json.load(open(os.path.join(d, fn))).get("findings", [])
+    return out
 
 
 def jsonable(o):
